@@ -141,6 +141,38 @@ theorem C03_save_twice_identical (c : Codec τ) (emb : Emb δ) (m : Model δ) :
       simp [userPart, reserved_kCycles, reserved_kHash, reserved_kFilename]
     rw [this, append_nil]
 
+/- what the order of the top-level entries is a function of: the user's non-reserved keys in the order of the dict,
+   then cycles, excel_hash, cell_map, filename — nothing else (not what an earlier save or the loaded file left in
+   the dict) -/
+theorem C03_doc_keys (c : Codec τ) (m : Model δ) :
+    docKeys (toDoc c m) = (userPart m.extraList).map (·.1) ++ [kCycles, kHash, kCellMap, kFilename] := by
+  simp [docKeys, toDoc, List.map_append, List.map_map, Function.comp_def]
+
+theorem userPart_upd (k : List Char) (hk : reserved k = false) (d : δ) :
+    ∀ l : List (List Char × δ), userPart (upd k d l) = upd k d (userPart l)
+  | [] => by simp [upd, userPart, hk]
+  | (k', v') :: l => by
+    by_cases e : k = k'
+    · subst e; simp [upd, userPart, hk]
+    · by_cases r : reserved k' = true
+      · simp only [upd, e, if_false, userPart, List.filter_cons, r, Bool.not_true, Bool.false_eq_true]
+        exact userPart_upd k hk d l
+      · have r' : reserved k' = false := by simpa using r
+        simp only [upd, e, if_false, userPart, List.filter_cons, r', Bool.not_false, if_true]
+        exact congrArg _ (userPart_upd k hk d l)
+
+/- save, then `extra_data[k] = d` IN PLACE on the dict the save left behind (it now also holds cycles, excel_hash,
+   filename), then save again: the user's keys keep their order, a new key comes after them and BEFORE the four
+   entries of the file — exactly where a model loaded from that file will write it again (`C03_resave_identical`) -/
+theorem C03_doc_keys_after_add (c : Codec τ) (emb : Emb δ) (m : Model δ) (l : List (List Char × δ))
+    (hm : m.extra = some l) (k : List Char) (hk : reserved k = false) (d : δ) :
+    docKeys (toDoc c { afterSave emb m with extra := some (upd k d (afterSave emb m).extraList) }) =
+      (upd k d (userPart l)).map (·.1) ++ [kCycles, kHash, kCellMap, kFilename] := by
+  rw [C03_doc_keys]
+  simp only [Model.extraList, Option.getD_some, afterSave, hm]
+  rw [userPart_upd k hk d, userPart_append, userPart_idem]
+  simp [userPart, reserved_kCycles, reserved_kHash, reserved_kFilename]
+
 /- "pickle only rewritten when text changed": the second save of an unchanged model does not rewrite the pickle -/
 theorem C03_pickle_not_rewritten {σ : Type} [DecidableEq σ] (render : Doc δ τ → σ) (c : Codec τ) (emb : Emb δ)
     (m : Model δ) :
